@@ -28,7 +28,8 @@ func calcScaleUpDelta(allNodes []*v1.Node, cpuPercent, memPercent float64, cpuRe
 			nodeGroup.Opts.Name).Debugf("scale up node group from 0 based on cached nodes cpu capacity: %s, nodes memory capacity: %s",
 			nodeGroup.cpuCapacity.String(), nodeGroup.memCapacity.String())
 		nodesNeededCPU = math.Ceil(float64(cpuRequest.MilliValue()) / float64(nodeGroup.cpuCapacity.MilliValue()) / scaleUpThresholdPercent * 100)
-		nodesNeededMem = math.Ceil(float64(memRequest.MilliValue()) / float64(nodeGroup.memCapacity.MilliValue()) / scaleUpThresholdPercent * 100)
+		// memory is in bytes: MilliValue would overflow int64 above ~8 PiB
+		nodesNeededMem = math.Ceil(float64(memRequest.Value()) / float64(nodeGroup.memCapacity.Value()) / scaleUpThresholdPercent * 100)
 	} else {
 		percentageNeededCPU := (cpuPercent - scaleUpThresholdPercent) / scaleUpThresholdPercent
 		percentageNeededMem := (memPercent - scaleUpThresholdPercent) / scaleUpThresholdPercent
@@ -57,14 +58,15 @@ func allEqual(matchValue int64, resourceValues ...int64) bool {
 // calcPercentUsage helper works out the percentage of cpu and mem for request/capacity
 func calcPercentUsage(cpuRequest, memRequest, cpuCapacity, memCapacity resource.Quantity, numberOfUntaintedNodes int64) (float64, float64, error) {
 
-	mCPUReq, mMemReq, mCPUCap, mMemCap := cpuRequest.MilliValue(), memRequest.MilliValue(), cpuCapacity.MilliValue(), memCapacity.MilliValue()
+	// cpu in millicores, memory in bytes (a milli-byte value overflows int64 above ~8 PiB)
+	mCPUReq, mMemReq, mCPUCap, mMemCap := cpuRequest.MilliValue(), memRequest.Value(), cpuCapacity.MilliValue(), memCapacity.Value()
 
 	// in this case there is already 0 usage and 0 request. Escalator should do nothing
 	if allEqual(0, mCPUReq, mMemReq, mCPUCap, mMemCap, numberOfUntaintedNodes) {
 		return 0, 0, nil
 	}
 
-	if cpuCapacity.MilliValue() == 0 || memCapacity.MilliValue() == 0 {
+	if mCPUCap == 0 || mMemCap == 0 {
 		// Needs to return nil for just in case if node group untainted nodes size is zero
 		// which means percent of usage will be ∞
 		// use math.MaxFloat64 here which will trigger a scale-up
@@ -75,7 +77,7 @@ func calcPercentUsage(cpuRequest, memRequest, cpuCapacity, memCapacity resource.
 		return 0, 0, errors.New("cannot divide by zero in percent calculation")
 	}
 
-	cpuPercent := float64(cpuRequest.MilliValue()) / float64(cpuCapacity.MilliValue()) * 100
-	memPercent := float64(memRequest.MilliValue()) / float64(memCapacity.MilliValue()) * 100
+	cpuPercent := float64(mCPUReq) / float64(mCPUCap) * 100
+	memPercent := float64(mMemReq) / float64(mMemCap) * 100
 	return cpuPercent, memPercent, nil
 }
